@@ -25,6 +25,8 @@ SIG = {
     'is_square_mod': {'sort': 'bool', 'uf': True},
     'sqrt_mod': {'sort': 'int', 'uf': True, 'facts': ['ite(spec.keys.is_square_mod(a, p), 0 <= result, True)', 'ite(spec.keys.is_square_mod(a, p), result < p, True)',
                                                      'ite(spec.keys.is_square_mod(a, p), (result * result) % p == a % p, True)']},
+    # Integer.random(exact_bits=b) reading the caller's tape from call number `cursor` on (two calls): top bit forced, so 2^(b-1) <= v < 2^b
+    'random_exact_bits': {'sort': 'int', 'uf': True, 'facts': ['pow2(bits - 1) <= result', 'result < pow2(bits)']},
     # Integer.random_range(lo, hi inclusive) reading the caller's tape from call number `cursor` on (C18: a rejection sampler, so the
     # value is in range and a function of the bounds and the tape only)
     'random_range': {'sort': 'int', 'uf': True, 'facts': ['lo <= result', 'result <= hi']},
@@ -116,6 +118,13 @@ def ed448_x2(y):
 def x25519_u(enc):
     """RFC 7748 5 decodeUCoordinate for X25519: mask the most significant bit of the final octet, little endian"""
     return le(setbyte(enc, 31, enc[31] & 0x7F))
+
+
+def random_exact_bits(bits, cursor):
+    pass
+
+
+DSA_LN = ((1024, 160), (2048, 224), (2048, 256), (3072, 256))       # FIPS 186-4 4.2
 
 
 def random_range(lo, hi, cursor):
